@@ -16,8 +16,8 @@ git apply $src/patch.diff; res applies $?
 go build ./... ; res builds $?
 go test -vet=off -count=1 ./... > /tmp/vm-$name.suite.log 2>&1; res suite_with_patch $?
 mkdir -p $(dirname $demo_rel); cp $demo_file $demo_rel
-bash -c "$(echo "$demo_cmd" | sed -E "s#^cd [^&]+&& *##")" > /tmp/vm-$name.demo_with.log 2>&1; res demo_with_patch_exit $?
+bash -c "$(echo "$demo_cmd" | sed -E "s#cd /tmp/[^ ]+ *&& *##")" > /tmp/vm-$name.demo_with.log 2>&1; res demo_with_patch_exit $?
 git apply -R $src/patch.diff
-bash -c "$(echo "$demo_cmd" | sed -E "s#^cd [^&]+&& *##")" > /tmp/vm-$name.demo_without.log 2>&1; res demo_without_patch_exit $?
+bash -c "$(echo "$demo_cmd" | sed -E "s#cd /tmp/[^ ]+ *&& *##")" > /tmp/vm-$name.demo_without.log 2>&1; res demo_without_patch_exit $?
 cd /; git -C /repo worktree remove --force $wt
 mkdir -p /verif/seeded/$name; cp $src/patch.diff /verif/seeded/$name/patch.diff; cp $demo_file /verif/seeded/$name/; cp $src/meta.json /verif/seeded/$name/agent_meta.json
